@@ -35,7 +35,7 @@ ASSUMPTIONS = [
     "a KIL read through the register front end scans once first (both implementations), and in Rust drains the FIFO: "
     "events generated or consumed by a Rust read are not observable and reset the per-key order automaton",
     "order of events generated within one scan tick is implementation-defined (compared as multisets)",
-    "repeat delay/interval 0 and the key-strobe-disable bit are not judged",
+    "repeat interval 0 and the key-strobe-disable bit are not judged; repeat delay 0 is read as 'first repeat on the scan tick after the press event'",
 ]
 PROBES = ["debounced_press", "release_event", "repeat_event", "fifo_full", "chatter_suppressed", "strobe_change_mid_debounce",
           "shared_row_keys", "kil_read_pending", "active_low", "inject", "keyi_raised", "keyi_masked", "wide_strobe_store"]
@@ -89,6 +89,10 @@ def generate(batch: str, r: Rng, idx: int, tier: str) -> Dict[str, Any]:
     cfg = {"press": r.choice([1, 1, 2, 3, 6]), "release": r.choice([1, 2, 3, 6]),
            "repeat_delay": r.choice([1, 2, 6, 24]), "repeat_interval": r.choice([1, 2, 6]),
            "active_high": r.chance(3, 4)}
+    if r.child("delay0").chance(1, 8):
+        # "repeat at once": with a delay of zero the first repeat comes on the scan tick after the press event (what both
+        # implementations do); a key that then never repeats, or repeats at another cadence, breaks the statement
+        cfg["repeat_delay"] = 0
     if ex == "rs-kbd" and r.child("raw").chance(1, 6):
         cfg["raw_kil"] = True      # host-side option of the Rust matrix: KIL from the physical key state
     cols = sorted(set(k >> 3 for k in keys))
